@@ -102,7 +102,7 @@ pub fn apply_tamper(t: &Tamper, tx: &mut Transaction, spent: &mut Vec<TxOut>) ->
         Tamper::CorruptRp(j) => { if *j >= n { return Some((false, false)); } let app = tx.output[*j].value.is_confidential() && tx.output[*j].witness.rangeproof.is_some();
             if let Some(p) = tx.output[*j].witness.rangeproof.clone() { tx.output[*j].witness.rangeproof = Some(Box::new(corrupt_rp(&p)?)); } (app, true) }
         Tamper::SwapRp(j, k) => { if !two(*j, *k) { return Some((false, false)); }
-            let app = tx.output[*j].value.is_confidential() && tx.output[*k].value.is_confidential();
+            let app = tx.output[*j].value.is_confidential() && tx.output[*k].value.is_confidential() && akind(&tx.output[*j].asset, &tx.output[*k].asset);
             let (x, y) = (&tx.output[*j], &tx.output[*k]);
             let same = x.value == y.value && x.script_pubkey == y.script_pubkey && x.asset == y.asset;
             let (a, b) = (tx.output[*j].witness.rangeproof.clone(), tx.output[*k].witness.rangeproof.clone());
